@@ -60,6 +60,11 @@ TSpec == TInit /\ [][TNext]_tvars
 HighWater == TLCSet(1, IF TLCGetOrDefault(1, 0) < l THEN l ELSE TLCGetOrDefault(1, 0))
 Report == TLCGet("stats").diameter >= 0 /\ PrintT("@@" \o ToJson([hw |-> TLCGetOrDefault(1, 0), len |-> Len(TraceLog)]))
 
+\* every line has been matched: report and stop (an accepting path is enough; the rest of the search would only
+\* enumerate the other interleavings of the unlogged steps)
+Accepted == (l > Len(TraceLog)) => /\ PrintT("@@" \o ToJson([hw |-> l, len |-> Len(TraceLog)]))
+                                   /\ TLCSet("exit", TRUE)
+
 \* diagnosis of a rejection: print every observation the model allows at line PeekLine
 Peek == (PeekLine > 0 /\ ph = "run" /\ l = PeekLine /\ Quiescent) => PrintT("@@" \o ToJson([peek |-> Obs]))
 
